@@ -108,7 +108,7 @@ def unit(u):
     open(os.path.join(d, "prelude.rs"), "w").write(PRELUDE.replace("@ELEM@", elem))
     open(os.path.join(d, "spec.rs"), "w").write(SPEC.replace("@ELEM@", elem).replace("@COLL@", coll).replace("@VEC@", vec).replace("@KEYMODEL@", km))
     t = ['unit = "dedup_%s"' % name, 'properties = ["C16"]', 'uses = ["use vstd::std_specs::iter::IteratorSpec;"]',
-         'prelude = ["../_common/base.rs", "prelude.rs"]', 'lemmas = ["spec.rs"]', '',
+         'prelude = ["../_common/base.rs", "../_common/slice_specs.rs", "prelude.rs"]', 'lemmas = ["spec.rs"]', '',
          '[[type]]', 'source = "%s"' % file, 'name = "%s"' % coll, '']
     def fn(nm, **kw):
         t.append('[[fn]]'); t.append('source = "%s"' % file); t.append('impl = "impl %s"' % coll); t.append('name = "%s"' % nm)
